@@ -48,3 +48,12 @@ Theorem C17_hypotheses_satisfiable :
   existsb (fun x => mem_str x epub_void) epub_remove = true.
 Proof. vm_compute. repeat split; reflexivity. Qed.
 Print Assumptions C17_hypotheses_satisfiable.
+
+(* the three removable-element sets coincide: html_extractor.REMOVE_TAGS (HTML, MHTML, MSG body),
+   epub_extractor.REMOVE_TAGS, and the elements the property statement names - no more, no less *)
+Definition subset_str (a b : list str) : bool := forallb (fun x => mem_str x b) a.
+Theorem C17_remove_sets_agree :
+  subset_str html_remove epub_remove && subset_str epub_remove html_remove &&
+  subset_str html_remove statement_removed && subset_str statement_removed html_remove = true.
+Proof. vm_compute. reflexivity. Qed.
+Print Assumptions C17_remove_sets_agree.
